@@ -56,6 +56,9 @@ type Flat struct {
 	// WalkExprStmts makes it evaluate expression statements too (for hooks that record calls)
 	WalkMaxVisits int
 	WalkExprStmts bool
+	// Outer is the graph of the enclosing function when this graph is the body of a function literal
+	// (CanonPath looks for the definitions of captured variables there)
+	Outer *Flat
 }
 
 func (p *Prog) mayReturn(pkg *packages.Package) func(*ast.CallExpr) bool {
